@@ -56,6 +56,9 @@ ASSUMPTIONS = [
   "against untagged frames where the two readings differ; 802.3 inside a VLAN tag; ARP opcode > 255; transport ports "
   "matched with an IP protocol other than ICMP/TCP/UDP",
   "with two matching entries of equal effective priority either may win",
+  "in an ambiguous zone the verdict is open but the operation is still judged: the comparison / lookup completes without an "
+  "exception, exactly one of {one entry's output, one packet-in} is observed, and the winner matches or may match and is not "
+  "outranked by an entry that matches under every reading",
   "frames are well formed (correct lengths and checksums, CFI 0); malformed frames belong to C15",
 ]
 EXHAUSTIVE_SCOPE = {
@@ -293,9 +296,16 @@ def case_direct(c, out):
   for what, frame, port, pf, pkm in _probes(spec, in_port, c.get("probes", FS.PERTURBATIONS), _plen(nws), _plen(nwd)):
     amb = M.ambiguous(m, pf, e)
     if amb:
+      # the specification does not settle the verdict here, but the comparison must still complete
       for z in amb:
         out.label("ambiguous:" + z)
       out.label("probe-unjudged")
+      try:
+        pox_matches(pm, frame, port, pkm)
+      except Exception as x:
+        out.violations.append({"key": exc_key(x, clause="match-raises", zone=amb[0]),
+                               "msg": "match %s vs probe %r (in_port %d, frame %s) in the ambiguous zone %r: the comparison raised %r" % (
+                                   raw.hex(), what, port, frame.hex(), amb, x)})
       continue
     ref = M.matches(m, pf, e)
     nd = _differing(m, pf, e)
@@ -326,6 +336,46 @@ def _entry_kind(m):
   if m["dl_type"] == F.ETH_ARP:
     return "exact-arp"
   return "exact-other"
+
+
+def _ambiguous_lookup(out, sw, live, unsettled, what, frame, port, pf):
+  """A probe for which the specification does not settle whether some entries match.  Which entry wins is
+  then open, but the lookup must still complete: exactly one of {one installed entry's output, one
+  packet-in}, no exception, and the winner admissible under some reading -- it matches or may match, and
+  no entry that matches under every reading outranks it."""
+  out.label("probe-unjudged", "probe-ambiguous-lookup")
+  hi = lambda e: 0x10001 if M.is_exact_semantic(e["m"]) else e["prio"]
+  lo = lambda e: 0x10001 if M.is_exact(e["m"]) else e["prio"]
+  definite = [e for e in live if e not in unsettled and M.matches(e["m"], pf)]
+  floor = max([lo(e) for e in definite]) if definite else None
+  admissible = [e for e in live if (e in unsettled or e in definite) and (floor is None or hi(e) >= floor)]
+  desc = "probe %r in_port %d frame %s (ambiguous for entries %r); table %s" % (
+      what, port, frame.hex(), [e["idx"] for e in unsettled], [(e["idx"], e["raw"].hex(), e["prio"]) for e in live])
+  try:
+    emitted = sw.frame(frame, port)
+  except Exception as x:
+    out.violations.append({"key": exc_key(x, clause="lookup-raises"), "msg": "the lookup raised %r; %s" % (x, desc)})
+    return
+  msgs = sw.replies()
+  pins = [x for x in msgs if x.get("kind") == "packet_in"]
+  others = [x for x in msgs if x.get("kind") != "packet_in"]
+  if others:
+    out.fail("lookup-unexpected-message", "frame caused %r; %s" % (others, desc), kind=others[0].get("kind"))
+  ports = [p for p, _ in emitted]
+  if len(ports) + len(pins) != 1:
+    out.fail("lookup-output", "outputs on ports %r and %d packet-ins for one frame; %s" % (ports, len(pins), desc))
+    return
+  if pins:
+    if definite:
+      out.fail("lookup-miss", "table miss although entries %r match under every reading; %s" % ([e["idx"] for e in definite], desc),
+               winner=_entry_kind(definite[0]["m"]))
+    return
+  got = [e for e in live if e["port"] == ports[0]]
+  if not got:
+    out.fail("lookup-output", "output on port %d which belongs to no live entry; %s" % (ports[0], desc))
+  elif got[0] not in admissible:
+    out.fail("lookup-inadmissible", "entry %d fired; admissible under some reading are %r; %s" % (
+        got[0]["idx"], [e["idx"] for e in admissible], desc), matches=bool(got[0] in definite))
 
 
 def case_table(c, out):
@@ -363,8 +413,9 @@ def case_table(c, out):
     if any(pr[i] < pr[i + 1] for i in range(len(pr) - 1)):
       out.fail("table-order", "entries are not sorted by non-increasing effective priority: %r" % (pr,))
     for what, frame, port, pf, _pkm in _probes(spec, in_port, c.get("probes", FS.PERTURBATIONS), 32, 32):
-      if any(M.ambiguous(e["m"], pf) for e in live):
-        out.label("probe-unjudged")
+      unsettled = [e for e in live if M.ambiguous(e["m"], pf)]
+      if unsettled:
+        _ambiguous_lookup(out, sw, live, unsettled, what, frame, port, pf)
         continue
       matching = [e for e in live if M.matches(e["m"], pf)]
       eff = lambda e: 0x10001 if M.is_exact(e["m"]) else e["prio"]
@@ -526,7 +577,7 @@ def _spec(draw):
     if fr in (2, 3):
       s["frag"] = draw(st.sampled_from([1, 185, 0x1fff]))
   elif l3 == "arp":
-    s.update({"op": draw(st.sampled_from([1, 2, 3, 4, 255])), "spa": draw(_u32), "tpa": draw(_u32)})
+    s.update({"op": draw(st.sampled_from([1, 2, 3, 4, 255, 256, 0x0101])), "spa": draw(_u32), "tpa": draw(_u32)})
   else:
     s["etype"] = draw(st.sampled_from([0x88b5, 0x86dd, 0x88b6, 0x0600, 0xffff, 0x22f0, 0x9000]))
   return s
